@@ -911,6 +911,17 @@ func ssCase(c *Ctx, in *ssIn) {
 }
 
 func replayCtlSts(c *Ctx, op string, raw json.RawMessage) {
+	if op == "fault" {
+		var f struct {
+			In ssVIn `json:"in"`
+			K  int   `json:"k"`
+		}
+		if err := json.Unmarshal(raw, &f); err != nil {
+			panic(err)
+		}
+		faultReplay(c, &f.In, f.K, func(n int) faultRun { return ssVerdictFault(&f.In, n) })
+		return
+	}
 	if op == "verdict" {
 		var in ssVIn
 		if err := json.Unmarshal(raw, &in); err != nil {
@@ -1247,7 +1258,11 @@ func runCtlSts(c *Ctx) {
 		case r < 12:
 			ssCase(c, ssAnyWalk(c))
 		default:
-			ssVCase(c, ssVGen(c))
+			vin := ssVGen(c)
+			ssVCase(c, vin)
+			if i%3 == 0 && (vin.Fault == "" || vin.Fault == "none") {
+				faultSweep(c, vin, true, func(n int) faultRun { return ssVerdictFault(vin, n) })
+			}
 		}
 	}
 }
@@ -1504,6 +1519,35 @@ func ssVRun(in *ssVIn) interface{} {
 }
 
 func ssVCase(c *Ctx, in *ssVIn) { c.Emit("verdict", in, ssVRun(in)) }
+
+// ssVerdictFault: the readiness check alone (the control plane's EnsureBatchPodsReadyAndLabeled), with the failN-th API call
+// — the Get of the workload, the List of its pods, the Get of a pod's owner ReplicaSet … — failing once.
+func ssVerdictFault(in *ssVIn, failN int) faultRun {
+	must(flag.Set("filter-workload-type", "false"))
+	kind := "native"
+	objs := []client.Object{}
+	if in.Wl != nil {
+		kind = in.Wl.Kind
+		objs = append(objs, ssBuildS(in.Wl, &in.Status))
+	}
+	objs = append(objs, ssMidObjects()...)
+	for i, a := range in.Pods {
+		objs = append(objs, ssPodConcrete(i, a, kind))
+	}
+	lc := NewLogClient(fakeClient(objs...))
+	win := &ssIn{Batches: in.Batches, NoNeedUpdate: in.NoNeedUpdate}
+	rel := ssRelease(win, kind, ssStep{Batch: in.Batch})
+	rel.Spec.ReleasePlan.FailureThreshold = iosFromAny(in.FailureThreshold)
+	f := pstatefulset.NewController
+	if kind == "daemonSet" {
+		f = pdaemonset.NewController
+	}
+	lc.FailCallN = failN
+	plane := partitionstyle.NewControlPlane(f, lc, record.NewFakeRecorder(100), rel, rel.Status.DeepCopy(), ssKey, ssGVK(kind))
+	err := plane.EnsureBatchPodsReadyAndLabeled()
+	lc.FailCallN = 0
+	return faultRun{Err: err != nil, Calls: lc.Calls, Hit: lc.FaultHit, Writes: writesOf(lc)}
+}
 
 // ---- generator of verdict cases ----
 
